@@ -22,6 +22,7 @@ import PybropsModel.Lemmas.CoancestryInt
 import PybropsModel.Lemmas.CoancestryScale
 import PybropsModel.Lemmas.CoancestryPsd
 import PybropsModel.Lemmas.CoancestrySpecSound
+import PybropsModel.Lemmas.CoancestryRound4
 set_option autoImplicit false
 set_option linter.unusedSectionVars false
 
@@ -1201,11 +1202,14 @@ open Spec in
     weighted: non-negative weights), the object the model builds — matrix, both views, every accessor pair, the
     source's labels and group metadata — passes every check of `Spec.specCmatWith` against the independently
     evaluated formula matrix: shape, formula, coancestry view, kinship exactly half, accessors, symmetry, positive
-    semidefiniteness (exact test), labels.  So the oracle demands nothing beyond what the theorems above prove. -/
+    semidefiniteness (exact test), labels — and, for ANY list `is` of taxa indices (`sel = some is`), the two
+    sub-selection clauses `select_commutes` / `select_labels` on what the model reports for
+    `from_gmat(gmat.select_taxa(is))` and `from_gmat(gmat).select_taxa(is)` (`Spec.selOfModel`).  So the oracle
+    demands nothing beyond what the theorems above prove. -/
 theorem spec_cmat_sound (e : Estimator) (g : Spec.Gm) (p w : List ℚ) (lab : Labels) (hv : Spec.Valid e g p w)
-    (G : List (List ℚ)) (hG : estimate e g.ploidy g.m w p g.X = .ok G) :
-    (Spec.specCmatWith g.n (Spec.formulaMat e g p w) lab (Spec.cmatOfModel g.n G lab) none).all (fun c => c.ok)
-      = true := by
+    (G : List (List ℚ)) (hG : estimate e g.ploidy g.m w p g.X = .ok G) (sel : Option (List Nat)) :
+    (Spec.specCmatWith g.n (Spec.formulaMat e g p w) lab (Spec.cmatOfModel g.n G lab)
+      (sel.map (Spec.selOfModel e g p w lab G))).all (fun c => c.ok) = true := by
   obtain ⟨hlen, hrows, hv⟩ := hv
   have hX : Rect g.n g.m g.X := ⟨hlen, hrows⟩
   have hat2 : at2 (arr2 g.X) = entry g.X := by funext i k; exact at2_arr2 g.X i k
@@ -1216,7 +1220,19 @@ theorem spec_cmat_sound (e : Estimator) (g : Spec.Gm) (p w : List ℚ) (lab : La
       (∀ i < g.n, ∀ j < g.n, entry G i j = entry G j i) ∧ ∀ v : Nat → ℚ, 0 ≤ quad g.n G v by
     obtain ⟨hR, hE, hs, hp⟩ := h
     have hF : G = Spec.formulaMat e g p w := rect_ext _ _ g.n g.n hR (rect_tabulate g.n _) hE
-    exact specCmatWith_ok_of g.n _ G lab none hR hF hs hp (fun s hs => by cases hs)
+    apply specCmatWith_ok_of g.n _ G lab _ hR hF hs hp
+    intro s hs'
+    cases sel with
+    | none => cases hs'
+    | some is =>
+      simp only [Option.map_some, Option.some.injEq] at hs'
+      subst hs'
+      have hA : estimate e g.ploidy g.m w p (Np.take is g.X) = .ok (selectSq is G) := by
+        rw [estimate_take, hG]; rfl
+      refine ⟨?_, rfl, rfl, rfl, rfl, rfl⟩
+      show (match estimate e g.ploidy g.m w p (Np.take is g.X) with | .ok A => A | .error _ => []) = _
+      rw [hA]
+      rfl
   cases e with
   | molecular =>
     obtain ⟨hpl, hm, hph⟩ := hv
@@ -1289,6 +1305,197 @@ theorem spec_reorder_sound (op : Spec.ObjOp) (pre post : Obj ℚ) (h : Spec.appl
   simp
 
 end round3
+
+/-! ### round 4: end-relative taxa indices, sub-selections stay symmetric positive semidefinite, the minimum
+    attainable inbreeding lies below every diagonal entry -/
+section round4
+variable {α : Type} [Field α] [LinearOrder α] [IsStrictOrderedRing α]
+
+/-- **How a taxa index is read** (`numpy.take`, fancy indexing; `LabelMat.normIdx`): a non-negative index below
+    `n` is itself, `-k` for `1 ≤ k ≤ n` is the `k`-th taxon from the end, everything else is an IndexError. -/
+theorem end_relative_index (n : Nat) :
+    (∀ i < n, LabelMat.normIdx n (Int.ofNat i) = .ok i) ∧
+    (∀ k, 0 < k → k ≤ n → LabelMat.normIdx n (-(k : Int)) = .ok (n - k)) ∧
+    (∀ i : Int, (n : Int) ≤ i ∨ i < -(n : Int) → LabelMat.normIdx n i = .error .index) ∧
+    (∀ (is : List Int) (ix : List Nat), LabelMat.normIdxs n is = .ok ix → ∀ k ∈ ix, k < n) :=
+  ⟨fun i hi => normIdx_ofNat n i hi, fun k hk hkn => normIdx_neg n k hk hkn,
+    fun i hi => normIdx_out_of_range n i hi, fun is ix h => normIdxs_lt n is ix h⟩
+
+/-- **`from_gmat(gmat).reorder_taxa(is)` = `from_gmat(gmat re-ordered by is)` for the indices as written** —
+    `estimate_reorder_taxa_commutes` without its restriction to non-negative indices: `is` is any integer list numpy
+    accepts for `n` taxa (negative entries counted from the end), `ix` what it normalises to. -/
+theorem estimate_reorder_taxa_int_commutes (e : Estimator) (ploidy m : Nat) (w p : List α) (is : List Int)
+    (ix : List Nat) (X : List (List α)) (taxa grp : Option (List Int)) (gmeta : Option (LabelMat.Grp Int))
+    (h : LabelMat.normIdxs X.length is = .ok ix) (G : List (List α)) (hG : estimate e ploidy m w p X = .ok G) :
+    ∃ G', estimate e ploidy m w p (Np.take ix X) = .ok G' ∧
+      fromGmatObj (taxa.map (Np.take ix)) (grp.map (Np.take ix)) none (estimate e ploidy m w p (Np.take ix X))
+        = .ok (toObj G' (taxa.map (Np.take ix)) (grp.map (Np.take ix)) none) ∧
+      reorderObj is (toObj G taxa grp gmeta)
+        = .ok (toObj G' (taxa.map (Np.take ix)) (grp.map (Np.take ix)) none) := by
+  have hl := estimate_rows e ploidy m w p X G hG
+  obtain ⟨G', h1, h2, h3⟩ := estimate_reorder_taxa_commutes e ploidy m w p ix X taxa grp gmeta
+    (normIdxs_lt _ is ix h) G hG
+  refine ⟨G', h1, h2, ?_⟩
+  rw [reorderObj_int is ix _ (by rw [len_toObj, hl]; exact h)]
+  exact h3
+
+/-- **Sub-selection written with end-relative indices commutes.**  The genotype matrix normalises the indices
+    against its number of taxa, the relationship matrix against its number of rows; every estimator keeps that
+    number, so both calls pick the same taxa `ix`, and `from_gmat(gmat.select_taxa(is))` is
+    `from_gmat(gmat).select_taxa(is)` on the values (`select_commutes` of the Spec) — for frequencies / weights in
+    force held fixed. -/
+theorem select_taxa_end_relative_commutes (e : Estimator) (ploidy m : Nat) (w p : List α) (is : List Int)
+    (X G : List (List α)) (hG : estimate e ploidy m w p X = .ok G) :
+    Spec.normSel G.length is = Spec.normSel X.length is ∧
+      ∀ ix, Spec.normSel X.length is = some ix →
+        estimate e ploidy m w p (Np.take ix X) = .ok (selectSq ix G) ∧ ∀ k ∈ ix, k < X.length := by
+  have hl := estimate_rows e ploidy m w p X G hG
+  refine ⟨by rw [hl], ?_⟩
+  intro ix hix
+  refine ⟨by rw [estimate_take, hG]; rfl, ?_⟩
+  unfold Spec.normSel at hix
+  cases hn : LabelMat.normIdxs X.length is with
+  | error err => rw [hn] at hix; cases hix
+  | ok ix' =>
+    rw [hn] at hix
+    simp only [Except.toOption, Option.some.injEq] at hix
+    subst hix
+    exact normIdxs_lt _ is ix' hn
+
+/-- **Every sub-selection / permutation (any in-range index list, repeats allowed) of a symmetric positive
+    semidefinite relationship matrix is again square, symmetric and positive semidefinite**: its quadratic form
+    at `v` is the full matrix's quadratic form at the vector that gathers `v` per taxon. -/
+theorem select_preserves_symmetric_psd (is : List Nat) (G : List (List α)) (n : Nat) (hG : Rect n n G)
+    (h : ∀ i ∈ is, i < n) (hsym : ∀ i < n, ∀ j < n, entry G i j = entry G j i)
+    (hpsd : ∀ v : Nat → α, 0 ≤ quad n G v) :
+    Rect is.length is.length (selectSq is G) ∧
+      (∀ a < is.length, ∀ b < is.length, entry (selectSq is G) a b = entry (selectSq is G) b a) ∧
+      ∀ v : Nat → α, 0 ≤ quad is.length (selectSq is G) v := by
+  refine ⟨rect_selectSq is G n hG h, ?_, ?_⟩
+  · intro a ha b hb
+    rw [entry_selectSq is G n hG h a b ha hb, entry_selectSq is G n hG h b a hb ha]
+    exact hsym _ (getD_lt_of_forall is n a h ha) _ (getD_lt_of_forall is n b h hb)
+  · intro v
+    rw [quad_selectSq is G n hG h v]
+    exact hpsd _
+
+/-- instance: the molecular matrix of any sub-selected / permuted population, computed either way -/
+theorem molecular_select_psd (ploidy n m : Nat) (X G : List (List α)) (hX : Rect n m X)
+    (hG : molecular ploidy m X = .ok G) (is : List Nat) (h : ∀ i ∈ is, i < n) :
+    molecular ploidy m (Np.take is X) = .ok (selectSq is G) ∧
+      ∀ v : Nat → α, 0 ≤ quad is.length (selectSq is G) v := by
+  have hR : Rect n n G := by
+    obtain ⟨hm, hpl⟩ := molecular_ok_ploidy ploidy m X G hG
+    rcases hpl with rfl | rfl
+    · obtain ⟨G', hG', hR, _⟩ := molecular_one_entry n m X hX hm
+      rw [hG'] at hG; cases hG; exact hR
+    · obtain ⟨G', hG', hR, _⟩ := molecular_two_entry n m X hX hm
+      rw [hG'] at hG; cases hG; exact hR
+  refine ⟨by rw [molecular_take, hG]; rfl, ?_⟩
+  exact (select_preserves_symmetric_psd is G n hR h (molecular_symmetric ploidy n m X G hX hG)
+    (molecular_psd ploidy n m X G hX hG)).2.2
+
+/-- **Minimum attainable inbreeding ≤ every diagonal entry ≤ maximum inbreeding**, in either format, for the
+    model's own inverse (no solver contract): selfing-free contributions can only lower the inbreeding a single
+    parent would give. -/
+theorem min_inbreeding_le_diagonal (kin : Bool) (n : Nat) (G : List (List α)) (hG : Rect n n G)
+    (hsym : ∀ i < n, ∀ j < n, entry G i j = entry G j i)
+    (hpsd : ∀ v : Nat → α, 0 ≤ quad n G v) (x : α) (hx : minInbreeding kin G = some x) :
+    (∀ i < n, x ≤ entry (asFormat kin G) i i) ∧
+      ∀ y, maxInbreeding (asFormat kin G) = some y → 0 < n → x ≤ y := by
+  have hdiag : ∀ i < n, x ≤ entry (asFormat kin G) i i := by
+    intro i hi
+    have hn : 0 < n := Nat.lt_of_le_of_lt (Nat.zero_le i) hi
+    obtain ⟨hmin, _⟩ := min_inbreeding_is_min kin n hn G hG hsym hpsd x hx
+    have := hmin (fun a => if a = i then 1 else 0) (sum_unit n i hi)
+    rwa [quad_unit (asFormat kin G) n i hi] at this
+  refine ⟨hdiag, ?_⟩
+  intro y hy hn
+  have hGk : Rect n n (asFormat kin G) := by
+    cases kin with
+    | false => exact hG
+    | true => exact hG.mapMat _
+  obtain ⟨⟨i, hi, hiy⟩, _⟩ := max_inbreeding_spec (asFormat kin G) n hGk y hy
+  rw [← hiy]
+  exact hdiag i hi
+
+/-- **Molecular coancestry is twice a probability.**  For allele counts within `0..ploidy` (ploidy 1 or 2), any
+    number of taxa and `m ≥ 1` markers: every entry lies in `[0, 2]` and every diagonal entry in `[1, 2]` (an
+    individual is at least half identical by state with itself) — so `max_inbreeding()` of a molecular matrix is
+    at most 2 and its kinship view is a matrix of probabilities. -/
+theorem molecular_entries_bounds (ploidy n m : Nat) (X : List (List α)) (hX : Rect n m X)
+    (hpl : ploidy = 1 ∨ ploidy = 2) (hm : 0 < m)
+    (hrange : ∀ i < n, ∀ k < m, 0 ≤ entry X i k ∧ entry X i k ≤ (ploidy : α)) :
+    ∃ G, molecular ploidy m X = .ok G ∧
+      (∀ i < n, ∀ j < n, 0 ≤ entry G i j ∧ entry G i j ≤ 2) ∧ ∀ i < n, 1 ≤ entry G i i := by
+  obtain ⟨G, hG, _, hE⟩ := molecular_eq_twice_ibs_counts ploidy n m X hX hpl hm
+  have hc : (0 : α) < (ploidy : α) := by rcases hpl with rfl | rfl <;> norm_num
+  have hmα : (0 : α) < (m : α) := Nat.cast_pos.mpr hm
+  have hcc : (0 : α) < ((ploidy * ploidy : Nat) : α) := by push_cast; positivity
+  -- one marker: the identity-by-state probability of two allele counts is a probability
+  have ibs01 : ∀ i < n, ∀ j < n, ∀ k < m, 0 ≤ ibsCount ploidy X i j k ∧ ibsCount ploidy X i j k ≤ 1 := by
+    intro i hi j hj k hk
+    obtain ⟨x0, x1⟩ := hrange i hi k hk
+    obtain ⟨y0, y1⟩ := hrange j hj k hk
+    unfold ibsCount
+    constructor
+    · apply div_nonneg _ hcc.le
+      have := mul_nonneg x0 y0
+      have := mul_nonneg (sub_nonneg.mpr x1) (sub_nonneg.mpr y1)
+      linarith
+    · rw [div_le_one hcc]
+      push_cast
+      nlinarith [mul_nonneg x0 (sub_nonneg.mpr y1), mul_nonneg y0 (sub_nonneg.mpr x1)]
+  have ibsHalf : ∀ i < n, ∀ k < m, 1 / 2 ≤ ibsCount ploidy X i i k := by
+    intro i hi k hk
+    unfold ibsCount
+    rw [div_le_div_iff₀ (by norm_num) hcc]
+    push_cast
+    nlinarith [sq_nonneg (entry X i k - ((ploidy : α) - entry X i k))]
+  refine ⟨G, hG, ?_, ?_⟩
+  · intro i hi j hj
+    rw [hE i hi j hj]
+    unfold molecularFormula
+    rw [sumRange_eq]
+    have h0 : 0 ≤ ∑ k ∈ range m, ibsCount ploidy X i j k :=
+      Finset.sum_nonneg (fun k hk => (ibs01 i hi j hj k (Finset.mem_range.mp hk)).1)
+    have h1 : ∑ k ∈ range m, ibsCount ploidy X i j k ≤ (m : α) := by
+      calc ∑ k ∈ range m, ibsCount ploidy X i j k ≤ ∑ _k ∈ range m, (1 : α) :=
+            Finset.sum_le_sum (fun k hk => (ibs01 i hi j hj k (Finset.mem_range.mp hk)).2)
+        _ = (m : α) := by simp
+    constructor
+    · have := div_nonneg h0 hmα.le
+      linarith
+    · have : (∑ k ∈ range m, ibsCount ploidy X i j k) / (m : α) ≤ 1 := (div_le_one hmα).mpr h1
+      linarith
+  · intro i hi
+    rw [hE i hi i hi]
+    unfold molecularFormula
+    rw [sumRange_eq]
+    have h1 : (m : α) * (1 / 2) ≤ ∑ k ∈ range m, ibsCount ploidy X i i k := by
+      calc (m : α) * (1 / 2) = ∑ _k ∈ range m, (1 / 2 : α) := by simp
+        _ ≤ ∑ k ∈ range m, ibsCount ploidy X i i k :=
+            Finset.sum_le_sum (fun k hk => ibsHalf i hi k (Finset.mem_range.mp hk))
+    have : 1 / 2 ≤ (∑ k ∈ range m, ibsCount ploidy X i i k) / (m : α) := by
+      rw [le_div_iff₀ hmα]
+      linarith
+    linarith
+
+/-- the solver contract of the `_partial` theorems cannot be dropped either: for `G = I₂` and the non-inverse
+    `H = I₂/4` the value `1/ΣH = 2` exceeds `cᵀGc = 1/2` at `c = (1/2, 1/2)` -/
+theorem min_inbreeding_contract_counterexample :
+    minInbreedingOf ([[1/4, 0], [0, 1/4]] : List (List ℚ)) = 2 ∧
+      quad 2 ([[1, 0], [0, 1]] : List (List ℚ)) (fun _ => 1/2) = 1/2 ∧
+      (∑ _i ∈ range 2, (1/2 : ℚ)) = 1 ∧
+      ¬ IsRightInverse 2 ([[1, 0], [0, 1]] : List (List ℚ)) [[1/4, 0], [0, 1/4]] := by
+  refine ⟨by decide +kernel, ?_, by norm_num, ?_⟩
+  · simp [quad, Finset.sum_range_succ, entry]
+    norm_num
+  · intro h
+    have := h 0 (by norm_num) 0 (by norm_num)
+    simp [Finset.sum_range_succ, entry] at this
+
+end round4
 
 /-! ### non-vacuity: concrete non-trivial inputs meet the hypotheses (evaluated by the kernel) -/
 section nonvacuity
@@ -1442,6 +1649,38 @@ example : Spec.Valid Estimator.molecular ⟨2, 3, 2, false, [], exX⟩ [] [] := 
 -- `spec_reorder_sound`: the model accepts the re-ordering of the worked object
 example : (Spec.applyObjOp (.reorder [2, 0, 1]) (toObj ([[3/2, 3/2, 1/2], [3/2, 3/2, 1/2], [1/2, 1/2, 2]] : List (List ℚ))
     (some [0, 1, 2]) (some [7, 5, 7]) none)).toOption.isSome = true := by decide +kernel
+
+-- round 4 --------------------------------------------------------------------------------------------
+-- `end_relative_index`: with 3 taxa, -1 is taxon 2, -3 is taxon 0, 3 and -4 are rejected
+example : LabelMat.normIdx 3 (-1) = .ok 2 ∧ LabelMat.normIdxs 3 [-1, 0, -3] = .ok [2, 0, 0] ∧
+    LabelMat.normIdx 3 3 = .error .index ∧ LabelMat.normIdx 3 (-4) = .error .index := by decide
+-- `estimate_reorder_taxa_int_commutes`: the cycle of the round-3 example written as [-1, 0, -2]
+example : LabelMat.normIdxs exX.length [-1, 0, -2] = .ok [2, 0, 1] ∧
+    (reorderObj [-1, 0, -2]
+      (toObj ([[3/2, 3/2, 1/2], [3/2, 3/2, 1/2], [1/2, 1/2, 2]] : List (List ℚ)) (some [0, 1, 2]) (some [7, 5, 7])
+        (some ⟨[5, 7], [0, 1], [1, 3], [1, 2]⟩))).toOption
+    = some (toObj [[2, 1/2, 1/2], [1/2, 3/2, 3/2], [1/2, 3/2, 3/2]] (some [2, 0, 1]) (some [7, 7, 5]) none) := by
+  decide +kernel
+-- `select_taxa_end_relative_commutes`: "first and last" on the worked example
+example : Spec.normSel exX.length [0, -1] = some [0, 2] ∧
+    (estimate Estimator.vanraden 2 2 [] [1/2, 1/4] (Np.take [0, 2] exX)).toOption
+      = ((estimate Estimator.vanraden 2 2 [] [1/2, 1/4] exX).toOption.map (selectSq [0, 2])) := by decide +kernel
+-- `select_preserves_symmetric_psd`: a selection with a repeat of G = [[2,1],[1,2]] (symmetric, PSD: see above)
+example : (∀ i ∈ ([1, 0, 1] : List Nat), i < 2) ∧
+    selectSq [1, 0, 1] ([[2, 1], [1, 2]] : List (List ℚ)) = [[2, 1, 2], [1, 2, 1], [2, 1, 2]] := by decide +kernel
+-- `min_inbreeding_le_diagonal`: 3/2 ≤ 2 on G = [[2,1],[1,2]]; kinship 3/4 ≤ 1
+example : minInbreeding false ([[2, 1], [1, 2]] : List (List ℚ)) = some (3/2) ∧
+    maxInbreeding (asFormat false ([[2, 1], [1, 2]] : List (List ℚ))) = some 2 ∧
+    maxInbreeding (asFormat true ([[2, 1], [1, 2]] : List (List ℚ))) = some 1 := by decide +kernel
+-- `spec_cmat_sound` with a sub-selection: the components of `Spec.selOfModel` for taxa [2, 0] of the worked
+-- VanRaden example (matrix computed from the sub-selected counts = sub-selected matrix; labels taken along)
+example : (estimate Estimator.vanraden 2 2 [] [1/2, 1/4] (Np.take [2, 0] exX)).toOption
+      = some (selectSq [2, 0] ([[18/7, 18/7, -6/7], [18/7, 18/7, -6/7], [-6/7, -6/7, 10/7]] : List (List ℚ))) ∧
+    (CMat.select [2, 0] (⟨[[18/7, 18/7, -6/7], [18/7, 18/7, -6/7], [-6/7, -6/7, 10/7]],
+      ⟨some ["a", "b", "c"], none, none⟩⟩ : CMat ℚ)).mat = [[10/7, -6/7], [-6/7, 18/7]] ∧
+    (Labels.select [2, 0] ⟨some ["a", "b", "c"], none, none⟩).taxa = some ["c", "a"] := by decide +kernel
+-- `molecular_entries_bounds`: the counts of the worked example lie within 0..2
+example : ∀ i < 3, ∀ k < 2, (0 : ℚ) ≤ entry exX i k ∧ entry exX i k ≤ ((2 : Nat) : ℚ) := by decide +kernel
 
 end nonvacuity
 
